@@ -6,6 +6,7 @@
    other function. *)
 From Coq Require Import NArith ZArith List Bool Permutation.
 From Tinode Require Import Pure.Ring Pure.RingProofs Sys.Election Sys.ElectionProofs Sys.Gate Sys.GateProofs.
+From Tinode Require Import Sys.ElectionC17b Sys.ElectionC17bProofs.
 Import ListNotations.
 
 (* ------------------------------------------------------------------ *)
@@ -496,3 +497,161 @@ Example c17_gate_example :
    ObRehashed [2%N];
    ObSent x_a [2%N]; ObDelivered (ODelivered DMeta) true].
 Proof. exact stale_signature_example. Qed.
+
+(* ------------------------------------------------------------------ *)
+(* D. the health-check branch guard by guard, what an accepted check means for
+   later vote requests, and the partition guard of Session.dispatch (models
+   Sys/Election.v + Sys/ElectionC17b.v).  Added when the seeded changes C17-r2-2
+   (term of an accepted check adopted only when the leader NAME changes) and
+   C17-r2-3 ({note} served by a partitioned node) were missed. *)
+
+(* the healthCheck case for EVERY local state and EVERY message.  Stale leaders are ignored: *)
+Theorem c17_el_health_stale_local : forall l h, accepts_c17b l h = false -> handle_health l h = l.
+Proof. exact handle_health_stale. Qed.
+Print Assumptions c17_el_health_stale_local.
+
+(* ... and every other check is adopted: term and leader at once, whatever leader the node
+   followed before (none / the same name / another name) and whether the term is its own or a
+   later one; the missed-heartbeat counter restarts; activeNodes and failCount are not touched;
+   the node list as in c17_el_health_adopts *)
+Theorem c17_el_health_adopts_local : forall l h, accepts_c17b l h = true ->
+  let l' := handle_health l h in
+  term l' = h_term h /\ leader l' = Some (h_leader h) /\ missed l' = 0 /\ electing l' = electing l /\
+  active_nodes l' = active_nodes l /\ fail_count l' = fail_count l /\
+  (if list_eqb (h_sig h) (sig_of (ring_nodes l)) then
+     ring_nodes l' = ring_nodes l /\ rehash_skipped l' = rehash_skipped l
+   else if rehash_skipped l then ring_nodes l' = h_nodes h /\ rehash_skipped l' = false
+   else ring_nodes l' = ring_nodes l /\ rehash_skipped l' = true).
+Proof. exact handle_health_accepts. Qed.
+Print Assumptions c17_el_health_adopts_local.
+
+(* the guards of the branch one by one: (term <) ignored; (term >) adopted also when the leader
+   name is the one already followed; (term =, same leader) nothing to change; (term =, other or no
+   leader) leader adopted *)
+Theorem c17_el_health_guard_table : forall l h,
+  (h_term h < term l -> handle_health l h = l) /\
+  (term l < h_term h ->
+     term (handle_health l h) = h_term h /\ leader (handle_health l h) = Some (h_leader h)) /\
+  (term l = h_term h -> leader l = Some (h_leader h) ->
+     term (handle_health l h) = term l /\ leader (handle_health l h) = leader l) /\
+  (term l = h_term h -> leader l <> Some (h_leader h) ->
+     term (handle_health l h) = term l /\ leader (handle_health l h) = Some (h_leader h)).
+Proof. exact handle_health_guard_table. Qed.
+Print Assumptions c17_el_health_guard_table.
+
+(* a vote request of a term that is not above the node's term is refused and changes nothing *)
+Theorem c17_el_vote_refused : forall cfg s c t m,
+  t <= term (loc s m) -> rpcs s c t m = ReqFlying ->
+  let s' := deliver_req cfg s c t m in
+  (forall rt, rpcs s' c t m <> RepFlying (Granted rt)) /\
+  (forall n, loc s' n = loc s n) /\ (forall t' m', votes s' t' m' = votes s t' m').
+Proof. exact deliver_req_refuses. Qed.
+Print Assumptions c17_el_vote_refused.
+
+(* consequence over ALL continuations: once a node has accepted a health check of term T, no
+   vote request of a term <= T is ever granted by it again, whatever happens in between (in
+   particular the delayed request of an election the node missed) *)
+Theorem c17_el_no_stale_vote_after_health : forall cfg s idx h evs c t,
+  nth_error (hnet s) idx = Some h -> electing (loc s (h_to h)) = None ->
+  accepts_c17b (loc s (h_to h)) h = true ->
+  t <= h_term h ->
+  let s1 := fold_left (step cfg) evs (deliver_health s idx) in
+  rpcs s1 c t (h_to h) = ReqFlying ->
+  let s2 := deliver_req cfg s1 c t (h_to h) in
+  (forall rt, rpcs s2 c t (h_to h) <> RepFlying (Granted rt)) /\
+  (forall n, loc s2 n = loc s1 n) /\ (forall t' m', votes s2 t' m' = votes s1 t' m').
+Proof. exact no_stale_vote_after_health. Qed.
+Print Assumptions c17_el_no_stale_vote_after_health.
+
+(* the hypotheses are satisfiable in an execution: 5 nodes, node 1 follows leader 0 of term 1 and
+   hears nothing of the elections of terms 2 (candidate 4, failed) and 3 (0 again); 0's check of term
+   3 is accepted (same leader name, later term), and the delayed request of term 2 is refused *)
+Example c17_el_same_leader_later_term :
+  let s := run cfg5_c17b evs_same_leader_c17b in
+  (term (loc s 1), leader (loc s 1)) = (1, Some 0) /\
+  (exists h, nth_error (hnet s) 0 = Some h /\ h_to h = 1 /\ h_leader h = 0 /\ h_term h = 3) /\
+  rpcs s 4 2 1 = ReqFlying /\
+  let s1 := deliver_health s 0 in
+  (term (loc s1 1), leader (loc s1 1)) = (3, Some 0) /\
+  vote_answer_c17b (deliver_req cfg5_c17b s1 4 2 1) 4 2 1 = Some (false, 3).
+Proof. exact same_leader_later_term_c17b. Qed.
+
+(* sendHealthChecks keeps, in EVERY execution and on every node, as many entries in activeNodes
+   as this node plus its peers whose failCount is below node_fail_after (node_fail_after >= 1) *)
+Theorem c17_part_active_tracks_failcount : forall cfg, 1 <= cfg_fail_limit cfg -> forall evs n,
+  length (active_nodes (loc (run cfg evs) n)) = S (length (below_limit_c17b cfg (loc (run cfg evs) n) n)).
+Proof. exact active_tracks_failcount. Qed.
+Print Assumptions c17_part_active_tracks_failcount.
+
+(* one heartbeat of a leader: failCount = consecutive failed checks of that peer *)
+Theorem c17_part_failcount : forall cfg, NoDup (cfg_nodes cfg) -> forall s n d ok p,
+  In n (cfg_nodes cfg) -> electing (loc s n) = None -> leader (loc s n) = Some n ->
+  fail_count (loc (tick cfg s n d ok) n) p =
+  if mem p (peers cfg n) then (if mem p ok then 0 else S (fail_count (loc s n) p)) else fail_count (loc s n) p.
+Proof. exact leader_tick_failcount. Qed.
+Print Assumptions c17_part_failcount.
+
+(* isPartitioned in every reachable state <-> the node and the peers it has not failed
+   node_fail_after times in a row are no more than half of the configured nodes *)
+Theorem c17_part_iff : forall cfg, 1 <= cfg_fail_limit cfg -> NoDup (cfg_nodes cfg) -> forall evs n,
+  In n (cfg_nodes cfg) ->
+  (is_partitioned cfg (run cfg evs) n = true <->
+   2 * S (length (below_limit_c17b cfg (loc (run cfg evs) n) n)) <= length (cfg_nodes cfg)).
+Proof. exact partitioned_iff_reach. Qed.
+Print Assumptions c17_part_iff.
+
+(* Session.dispatch on a partitioned node: NO request - none of the ten kinds, with or without
+   extra.asUser, from a root session or not - reaches its handler ... *)
+Theorem c17_part_never_handles : forall root r k, dispatch_c17b true root r <> HandlerD k.
+Proof. exact dispatch_partitioned_never_handles_c17b. Qed.
+Print Assumptions c17_part_never_handles.
+
+(* ... every request that gets as far as the guard is answered by exactly one {ctrl 502} ({note}
+   included: the code answers it too), and what is rejected before the guard (extra.asUser of a
+   non-root session 403, unparsable 400, no kind 400) is rejected the same way as on a healthy node *)
+Theorem c17_part_502 : forall root r,
+  well_formed_c17b root r = true -> dispatch_c17b true root r = RepliedD 502.
+Proof. exact dispatch_partitioned_502_c17b. Qed.
+Print Assumptions c17_part_502.
+
+Theorem c17_part_front_unchanged : forall p root r,
+  well_formed_c17b root r = false -> dispatch_c17b p root r = dispatch_c17b false root r.
+Proof. exact dispatch_front_c17b. Qed.
+Print Assumptions c17_part_front_unchanged.
+
+Theorem c17_part_all_ten_kinds : forall k, In k all_kinds_c17b.
+Proof. exact all_kinds_complete_c17b. Qed.
+Print Assumptions c17_part_all_ten_kinds.
+
+(* the clause, over all executions: a node that (with the peers below the limit) reaches no more
+   than half of the configured nodes serves nothing ... *)
+Theorem c17_part_stops_serving : forall cfg, 1 <= cfg_fail_limit cfg -> NoDup (cfg_nodes cfg) ->
+  forall evs n root r, In n (cfg_nodes cfg) ->
+  2 * S (length (below_limit_c17b cfg (loc (run cfg evs) n) n)) <= length (cfg_nodes cfg) ->
+  (forall k, client_request_c17b cfg (run cfg evs) n root r <> HandlerD k) /\
+  (well_formed_c17b root r = true -> client_request_c17b cfg (run cfg evs) n root r = RepliedD 502).
+Proof. exact partitioned_stops_serving. Qed.
+Print Assumptions c17_part_stops_serving.
+
+(* ... and a node that reaches more than half serves every well-formed request (no 502) *)
+Theorem c17_part_healthy_serves : forall cfg, 1 <= cfg_fail_limit cfg -> NoDup (cfg_nodes cfg) ->
+  forall evs n root r k, In n (cfg_nodes cfg) ->
+  length (cfg_nodes cfg) < 2 * S (length (below_limit_c17b cfg (loc (run cfg evs) n) n)) ->
+  well_formed_c17b root r = true -> rq_kind r = Some k ->
+  client_request_c17b cfg (run cfg evs) n root r = HandlerD k.
+Proof. exact healthy_serves. Qed.
+Print Assumptions c17_part_healthy_serves.
+
+(* as the property words it: a leader (of any reachable state) none of whose peers answers for
+   node_fail_after heartbeats in a row is partitioned and refuses every client request *)
+Theorem c17_part_lonely_leader_stops : forall cfg,
+  NoDup (cfg_nodes cfg) -> 1 <= cfg_fail_limit cfg -> 2 <= length (cfg_nodes cfg) ->
+  forall evs n ds, In n (cfg_nodes cfg) ->
+  electing (loc (run cfg evs) n) = None -> leader (loc (run cfg evs) n) = Some n ->
+  cfg_fail_limit cfg <= length ds ->
+  let evs' := evs ++ map (fun d => Tick n d []) ds in
+  is_partitioned cfg (run cfg evs') n = true /\
+  forall root r, (forall k, client_request_c17b cfg (run cfg evs') n root r <> HandlerD k) /\
+                 (well_formed_c17b root r = true -> client_request_c17b cfg (run cfg evs') n root r = RepliedD 502).
+Proof. exact lonely_leader_stops. Qed.
+Print Assumptions c17_part_lonely_leader_stops.
